@@ -100,29 +100,41 @@ package loadaware
 //@   loop 1 invariant calls("highThresholdFilter") <= $n && calls("prodHighThresholdFilter") <= $n
 //@   loop 1 invariant len(lowNodes) >= 0 && len(highNodes) >= 0 && len(prodLowNodes) >= 0 && len(prodHighNodes) >= 0 && len(bothLowNodes) >= 0
 
-// filterNodes: without a node selector the pool is the whole node list; otherwise a sub-list (no
-// processed node, only matching nodes).
+// filterNodes: the pool is exactly the nodes that match the pool's selector (no selector = every node) and
+// were not processed by an earlier pool of this Balance round, as a new slice. (The code keeps input order;
+// an #ordered clause with a two-index existential made #complete time out and is not stated.)
+//@ spec func poolMember(n *corev1.Node, sel *metav1.LabelSelector, processed sets.String) bool = !processed.Has(n.ObjectMeta.Name) && (sel == nil || spec_selMatches(spec_selOf(sel), n.ObjectMeta.Labels))
+
 //@ func filterNodes [C18]
-//@   ensures #nosel: nodeSelector == nil ==> result0 == nodes && result1 == nil
+//@   ensures #nosel: nodeSelector == nil ==> result1 == nil
+//@   ensures #erriff: nodeSelector != nil ==> ((result1 != nil) <==> spec_selErr(nodeSelector))
 //@   ensures #err: result1 != nil ==> len(result0) == 0
 //@   ensures #subset: len(result0) <= len(nodes)
+//@   ensures #new: result1 == nil ==> len(result0) == 0 || arr(result0) != arr(nodes)
+//@   ensures #sound: result1 == nil ==> (forall j int :: 0 <= j && j < len(result0) ==> (exists k int :: 0 <= k && k < len(nodes) && result0[j] == nodes[k] && poolMember(nodes[k], nodeSelector, processedNodes)))
+//@   ensures #complete: result1 == nil ==> (forall k int :: 0 <= k && k < len(nodes) && poolMember(nodes[k], nodeSelector, processedNodes) ==> (exists j int :: 0 <= j && j < len(result0) && result0[j] == nodes[k]))
 //@   modifies inferred
 //@   loop 1 invariant 0 <= $i && $i <= len(nodes) && len(r) <= $i && fresh(arr(r))
+//@   loop 1 invariant #sel: nodeSelector != nil ==> selector == spec_selOf(nodeSelector)
+//@   loop 1 invariant #all: nodeSelector == nil ==> (forall m map[string]string :: {spec_selMatches(selector, m)} spec_selMatches(selector, m))
+//@   loop 1 invariant forall k int :: 0 <= k && k < len(nodes) ==> nodes[k] == old(nodes[k])
+//@   loop 1 invariant #sound: forall j int :: 0 <= j && j < len(r) ==> (exists k int :: 0 <= k && k < $i && r[j] == nodes[k] && poolMember(nodes[k], nodeSelector, processedNodes))
+//@   loop 1 invariant #complete: forall k int :: 0 <= k && k < $i && poolMember(nodes[k], nodeSelector, processedNodes) ==> (exists j int :: 0 <= j && j < len(r) && r[j] == nodes[k])
 
 // processOneNodePool: the eviction pass is reached only when some node is overloaded (and confirmed
 // abnormal), some node is underused, more than NumberOfNodes nodes are underused, and not all nodes
 // are underused. The full gate is asserted at the first statement after the early exits
 // (sortNodesByUsage#1; straight-line code leads from there to evictPodsFromSourceNodes) because the
-// calls in between forget pl.args. In call-site clauses `nodes` is the entry value, hence the
-// NodeSelector == nil guard (filterNodes#nosel) on #notall / #somenodes.
+// calls in between forget pl.args. #notall / #somenodes are stated over the pool's own node list, i.e. the
+// list filterNodes returned (in call-site clauses `nodes` would be the entry value of the parameter).
 //@ func (*LowNodeLoad).processOneNodePool [C18]
 //@   requires pl != nil && pl.args != nil && nodePool != nil
 //@   assert before call sortNodesByUsage#1: #overloaded: (len(sourceNodes) > 0 || len(prodHighNodes) > 0) && (len(abnormalNodes) > 0 || len(abnormalProdNodes) > 0)
 //@   assert before call sortNodesByUsage#1: #underused: (len(lowNodes) > 0 || len(prodLowNodes) > 0 || len(bothLowNodes) > 0) && allLowNodes == len(lowNodes) + len(prodLowNodes) + len(bothLowNodes)
 //@   assert before call sortNodesByUsage#1: #enough: allLowNodes > int(pl.args.NumberOfNodes)
 //@   assert before call evictPodsFromSourceNodes: #gated: calls("sortNodesByUsage") == 2 && (len(sourceNodes) > 0 || len(prodHighNodes) > 0) && (len(abnormalNodes) > 0 || len(abnormalProdNodes) > 0) && (len(lowNodes) > 0 || len(prodLowNodes) > 0 || len(bothLowNodes) > 0)
-//@   assert before call evictPodsFromSourceNodes: #notall: old(nodePool.NodeSelector) == nil ==> len(lowNodes) + len(prodLowNodes) + len(bothLowNodes) != len(nodes)
-//@   assert before call evictPodsFromSourceNodes: #somenodes: old(nodePool.NodeSelector) == nil ==> len(nodes) > 0
+//@   assert before call evictPodsFromSourceNodes: #notall: len(lowNodes) + len(prodLowNodes) + len(bothLowNodes) != len(lastresult("filterNodes", 0))
+//@   assert before call evictPodsFromSourceNodes: #somenodes: lastresult("filterNodes", 1) == nil && len(lastresult("filterNodes", 0)) > 0
 //@   assert before call evictPodsFromSourceNodes: #lists: $arg2 == abnormalNodes && $arg3 == lowNodes && $arg4 == abnormalProdNodes && $arg5 == prodLowNodes && $arg6 == bothLowNodes
 //@   ensures #once: calls("evictPodsFromSourceNodes") <= 1
 
